@@ -264,8 +264,12 @@ func c12r3(c *Ctx) {
 					}
 					// the subject of the split is the function's own string parameter, untouched: any trimming / rewriting before the split
 					// loses information the encoders put there (an empty last argument is a trailing separator)
-					if _, isPar := call.Call.Args[0].(*ssa.Parameter); isPar {
-						c.OK(rule, FuncName(fn), "strings.Split subject", c.P.InstrPos(call), "the input string itself: "+e.Term(call.Call.Args[0]))
+					if why, ok := splitSubjectOK(c.P, call.Call.Args[0], 0); ok {
+						c.OK(rule, FuncName(fn), "strings.Split subject", c.P.InstrPos(call), "the input string itself (at most a leading separator dropped), at every call site: "+e.Term(call.Call.Args[0]))
+					} else if why != "" {
+						c.FailX(Oblig{Rule: rule, Func: FuncName(fn), Construct: "strings.Split subject", Pos: c.P.InstrPos(call), Kind: "violation",
+							Detail:   "the tokenizer does not split its caller's input as given: " + why + " — what the builder / the built-in functions' encoder wrote (e.g. a trailing separator for an empty last argument) is altered before parsing, so parse(build(x)) != x",
+							Expected: "strings.Split(<the data parameter of the exported parser>, separator)"})
 					} else {
 						c.FailX(Oblig{Rule: rule, Func: FuncName(fn), Construct: "strings.Split subject", Pos: c.P.InstrPos(call), Kind: "violation",
 							Detail:   "the tokenizer splits " + e.Term(call.Call.Args[0]) + ", not its input as given: what the builder / the built-in functions' encoder wrote (e.g. a trailing separator for an empty last argument) is altered before parsing, so parse(build(x)) != x",
@@ -460,4 +464,111 @@ func isHexValue(e *Env, v ssa.Value, depth int) bool {
 		return true
 	}
 	return false
+}
+
+// splitSubjectOK: the string that is split is the string parameter of an exported parser entry point, handed down through
+// parameters of unexported helpers (judged at every call site), φ's and prefix drops `s[k:]` (the leading separator of the
+// storage-update format) — nothing that can remove or rewrite its end.
+func splitSubjectOK(p *Prog, v ssa.Value, depth int) (string, bool) {
+	if depth > 8 {
+		return "", false
+	}
+	switch x := v.(type) {
+	case *ssa.Parameter:
+		fn := x.Parent()
+		if isExportedAPI(fn) || len(p.Callers[fn]) == 0 {
+			return "", true
+		}
+		idx := -1
+		for i, q := range fn.Params {
+			if q == x {
+				idx = i
+			}
+		}
+		for _, cs := range p.Callers[fn] {
+			cc := cs.Common()
+			if !p.Src(cs.Parent()) {
+				continue
+			}
+			if cc.IsInvoke() || idx < 0 || idx >= len(cc.Args) {
+				return "", false
+			}
+			if why, ok := splitSubjectOK(p, cc.Args[idx], depth+1); !ok {
+				if why == "" {
+					why = "the value handed in at " + p.InstrPos(cs) + " is not the caller's input"
+				}
+				return why, false
+			}
+		}
+		return "", true
+	case *ssa.Slice:
+		if x.High != nil || x.Max != nil {
+			return "its end is cut off at " + p.InstrPos(x), false
+		}
+		return splitSubjectOK(p, x.X, depth+1)
+	case *ssa.Phi:
+		for _, ed := range x.Edges {
+			if why, ok := splitSubjectOK(p, ed, depth+1); !ok {
+				return why, false
+			}
+		}
+		return "", true
+	case *ssa.Call:
+		sc := x.Call.StaticCallee()
+		if sc == nil {
+			return "", false
+		}
+		if len(sc.Blocks) == 0 || sc.Pkg == nil || !strings.HasPrefix(sc.Pkg.Pkg.Path(), modPath) {
+			return "it is rewritten by " + CalleeName(x) + " at " + p.InstrPos(x), false
+		}
+		// a module helper: every return is an allowed form of one of its parameters, and the value handed in is allowed
+		for _, r := range returnsOf(sc) {
+			if len(r.Results) != 1 {
+				return "", false
+			}
+			if why, ok := splitSubjectHelperOK(p, r.Results[0], 0); !ok {
+				if why == "" {
+					why = sc.Name() + " returns something else than (a suffix of) its argument"
+				}
+				return why, false
+			}
+		}
+		for _, a := range x.Call.Args {
+			if a.Type().String() == "string" {
+				if why, ok := splitSubjectOK(p, a, depth+1); !ok {
+					return why, false
+				}
+			}
+		}
+		return "", true
+	}
+	return "", false
+}
+
+// splitSubjectHelperOK: inside a helper, the returned string is its parameter or a suffix of it.
+func splitSubjectHelperOK(p *Prog, v ssa.Value, depth int) (string, bool) {
+	if depth > 8 {
+		return "", false
+	}
+	switch x := v.(type) {
+	case *ssa.Parameter:
+		return "", true
+	case *ssa.Slice:
+		if x.High != nil || x.Max != nil {
+			return x.Parent().Name() + " cuts off the end of the string at " + p.InstrPos(x), false
+		}
+		return splitSubjectHelperOK(p, x.X, depth+1)
+	case *ssa.Phi:
+		for _, ed := range x.Edges {
+			if why, ok := splitSubjectHelperOK(p, ed, depth+1); !ok {
+				return why, false
+			}
+		}
+		return "", true
+	case *ssa.Call:
+		if sc := x.Call.StaticCallee(); sc != nil {
+			return x.Parent().Name() + " rewrites the string with " + CalleeName(x) + " at " + p.InstrPos(x), false
+		}
+	}
+	return "", false
 }
